@@ -193,6 +193,10 @@ def main():
     # ---- auxiliary concrete differentials against the reference tokenizer
     alpha = ['a', 'x', 'b', 'o', '_', '0', '1', '7', '9', 'f', 'n', ' ', '\n', '/', '*', '=', '!', '<', '+', '-', '?', '@', '"', "'", '\\', '.', '(', '[', 'u', '{', '}', '\t', ';', '%']
     srcs = [''.join(t) for L in range(0, 4) for t in itertools.product(alpha, repeat=L)]
+    if not quick:
+        # thorough: every string of length 4 over the 20 most interaction-prone characters
+        alpha4 = ['a', 'x', 'b', 'o', '_', '0', '1', '7', ' ', '\n', '/', '=', '!', '<', '?', '@', '"', "'", '\\', '%']
+        srcs += [''.join(t) for t in itertools.product(alpha4, repeat=4)]
     extra = ['0x_1', '0x1_f', '1__2', '0b102', '0o78', 'is', 'isx', 'or1', 'a//b\nc', 'a // b // c', '"a\\x41\\u{1F30E}\\n"', "'\\x41'", "'\\''", '"\\""', "'ab'", "'\\u{41}'", "'\\u{e9}'",
              '"\\u{D800}"', '"\\u{110000}"', 'x\t=\ty', '@is_you', '!is_defeat', '@if', '!=', '! =', 'a!=b', 'a! b', '??', '? ?', '>==', '<==>', '1.length', 'a.length', "'\n'", '"a\nb"',
              '0xg', '00', '007', '1e5', 'trueish', 'true', '1_000', '0xFF', '0b1_0', '0o17', '0X1', '1_', '_1', '0x', '"\\0\\a\\b\\f\\n\\r\\t\\\\\\\'\\""', "'\\0'", '"\\q"', '"\\x4"', '"\\xg1"',
@@ -207,7 +211,7 @@ def main():
     # limit is a located diagnostic by design of the repair, checked in C10)
     extra += ['"\\u{FFFFFFFFFFFFFFFFFFFFFFFF}"', "'\\u{FFFFFFFFFFFFFFFFFFFFFFFF}'", "'\\u{7FFFFFFF}'", "'\\u{80000000}'", '"\\u{100000000}"', '0x' + 'f' * 6000, '0b' + '1' * 20000, '9' * 4300]
     rng = random.Random(rep.seed)
-    for _ in range(400 if quick else 4000):
+    for _ in range(400 if quick else 40000):
         extra.append(''.join(rng.choice(alpha + ['0x', '0b', '0o', '_', '\\x41', '\\u{e9}', '//', '<=', '??', 'is', 'true', '"', '"']) for _ in range(rng.randrange(4, 12))))
     srcs += extra
     chunks = [srcs[i::32] for i in range(32)]
